@@ -49,8 +49,8 @@ def data_format(fmt, restricted):
     key = (fmt, restricted)
     if key not in _FORMATS:
         result = data.DataFormat(fmt)
-        if restricted:
-            result.set_property("allowed_characters", "32...125")
+        if restricted != "none":
+            result.set_property("allowed_characters", ALLOWED[restricted])
         result.validate()
         _FORMATS[key] = result
     return _FORMATS[key]
@@ -69,7 +69,7 @@ def make_field(type_name, fld, late=False):
         if late:
             fresh = data.DataFormat(fld["fmt"])
             field = cls("f", fld["emptyAllowed"], length_text(fld["length"]), rule, fresh)
-            fresh.set_property("allowed_characters", "32...125")
+            fresh.set_property("allowed_characters", ALLOWED[fld["restricted"]])
             fresh.validate()
             return field, None
         return cls("f", fld["emptyAllowed"], length_text(fld["length"]), rule, data_format(fld["fmt"], fld["restricted"])), None
@@ -79,8 +79,14 @@ def make_field(type_name, fld, late=False):
         return None, "%s field cannot be declared under format %s: %s: %s" % (type_name, fld["fmt"], type(error).__name__, error)
 
 
-def spell(cell, good_char):
-    return "".join(" " if c == "b" else ("~" if c == "d" else good_char) for c in cell)
+# the two shapes of an allowed-characters range, and the character that stands for class "d" under each: above every
+# allowed character, or in a gap between allowed ones (above the blank and the digits, below the letters)
+ALLOWED = {"range": "32...125", "gaps": "32, 48...57, 97...125"}
+DISALLOWED = {"none": "~", "range": "~", "gaps": "@"}
+
+
+def spell(cell, good_char, restricted="range"):
+    return "".join(" " if c == "b" else (DISALLOWED[restricted] if c == "d" else good_char) for c in cell)
 
 
 def observe(field, fmt, text):
@@ -146,14 +152,14 @@ def _job(vec):
     if vec["undecided"]:
         return problems
     fld = vec["fld"]
-    for type_name, late in [(name, late) for name in sorted(TYPES) for late in ((False, True) if fld["restricted"] else (False,))]:
+    for type_name, late in [(name, late) for name in sorted(TYPES) for late in ((False, True) if fld["restricted"] != "none" else (False,))]:
         field, reason = make_field(type_name, fld, late)
         if field is None:
             if reason != "skip":
                 problems.append(reason)
             continue
         for good_char in TYPES[type_name][1]:
-            text = spell(vec["cell"], good_char)
+            text = spell(vec["cell"], good_char, fld["restricted"])
             outcome, calls, measured = observe(field, fld["fmt"], text)
             if isinstance(measured, str):
                 continue  # a crashing hook is C02 / C10 business
@@ -163,7 +169,7 @@ def _job(vec):
                 continue  # hook not applicable (empty after stripping): one of the two vectors is enough
             what = "%s field (format %s, empty allowed %s, length %r, allowed characters %s%s), cell %r" % (
                 type_name, fld["fmt"], fld["emptyAllowed"], length_text(fld["length"]),
-                "32...125" if fld["restricted"] else "any", " set after the field was declared" if late else "", text)
+                ALLOWED.get(fld["restricted"], "any"), " set after the field was declared" if late else "", text)
             expected = vec["outcome"]
             if outcome[0] != expected[0]:
                 problems.append("%s: is %sed (%s) but must be %sed (%s)" % (what, outcome[0], outcome[1], expected[0], expected[1]))
@@ -172,7 +178,7 @@ def _job(vec):
             if calls != vec["hookCalls"]:
                 problems.append("%s: the rule was consulted %d time(s) but must be consulted %d time(s)" % (
                     what, calls, vec["hookCalls"]))
-    if fld["restricted"]:
+    if fld["restricted"] != "none":
         problems.extend(cross_format_probe())
     return problems
 
